@@ -39,6 +39,7 @@ R(a) == [a |-> a, h |-> 0, ok |-> FALSE, kept |-> 0, total |-> 0, n |-> 0, req |
 \* that the simulator does not enumerate all of them for every step of every behaviour
 DoUpdate  == \E c \in (IF Sample > 0 THEN RandomSubset(Sample, ReqChoices) ELSE ReqChoices) : LET a == ReqSeq(c) IN Step([R("Update") EXCEPT !.req = a], Update(w, a))
 DoUpdateRej == \E c \in (IF Sample > 0 THEN RandomSubset(Sample, ReqChoices) ELSE ReqChoices) : LET a == ReqSeq(c) IN Step([R("UpdateRejected") EXCEPT !.req = a], UpdateRejected(w, a))
+DoUpdateRejW == \E c \in (IF Sample > 0 THEN RandomSubset(Sample, ReqChoices) ELSE ReqChoices) : LET a == ReqSeq(c) IN Step([R("UpdateRejectedW") EXCEPT !.req = a], UpdateRejectedW(w, a))
 DoScrapeOK == \E h \in Targets, p \in (IF Sample > 0 THEN RandomSubset(1, Payloads) ELSE Payloads) :
                 Step([R("Scrape") EXCEPT !.h = h, !.ok = TRUE, !.kept = p[1], !.total = p[2]], Scrape(w, h, TRUE, p[1], p[2]))
 DoScrapeFail == \E h \in Targets : Step([R("Scrape") EXCEPT !.h = h], Scrape(w, h, FALSE, 0, 0))
@@ -50,7 +51,7 @@ DoReconfig == Sample > 0 /\ Step(R("Reconfig"), Reconfig(w))
 DoSetHead == \E n \in {0, 7, 40} : n # w.promHead /\ Step([R("SetHead") EXCEPT !.n = n], SetHead(w, n))
 
 Init == w = Restart(Init0) /\ hist = <<>>     \* a sidecar always loads its (here absent) store at start
-Next == Len(hist) < MaxLen /\ (DoUpdate \/ DoUpdateRej \/ DoScrapeOK \/ DoScrapeFail \/ DoRestart \/ DoRestartFail \/ DoReconfig \/ DoTick \/ DoSetHead)
+Next == Len(hist) < MaxLen /\ (DoUpdate \/ DoUpdateRej \/ DoUpdateRejW \/ DoScrapeOK \/ DoScrapeFail \/ DoRestart \/ DoRestartFail \/ DoReconfig \/ DoTick \/ DoSetHead)
 Spec == Init /\ [][Next]_vars
 View == w
 \* generation: a behaviour is exported when it reaches MaxLen (checked as an "invariant", which
@@ -67,7 +68,7 @@ IdleOK  == /\ (w.idleAt # -1) <=> (w.assign = <<>>)
 \* step properties, phrased on the last recorded operation
 LastIs(a) == hist' # hist /\ hist'[Len(hist')].a = a
 KeptStats ==
-  [][(LastIs("Update") \/ LastIs("UpdateRejected")) =>
+  [][(LastIs("Update") \/ LastIs("UpdateRejected") \/ LastIs("UpdateRejectedW")) =>
        \A h \in DOMAIN w.status \cap DOMAIN w'.status :
           /\ w'.status[h].health = w.status[h].health /\ w'.status[h].err = w.status[h].err
           /\ w'.status[h].series = w.status[h].series /\ w'.status[h].total = w.status[h].total
